@@ -189,6 +189,10 @@ func vC15Step(maxDepth, maxN, maxLen int) {
 	case 6:
 		ref.WStat(vBG, p9p.Dir{Mode: ndU32("wmode"), Length: ndU64("wlen")})
 	}
+	// the inductive invariant: whatever the operation did or refused to do, the
+	// entry it was applied to still carries a valid internal path, so that the
+	// next operation again starts from a state this harness covers
+	vAssert(vCanonInternal(ref.Path), "C15: every operation, successful or not, leaves its entry with a valid internal path")
 	vCheckConfined("one operation")
 	vReach("c15.step")
 }
